@@ -646,6 +646,32 @@ def gen_ctrl_spec(rng, i):
     return spec
 
 
+def gen_ctrl_neg_spec(rng, i):
+    """Every controller class on strictly NEGATIVE energies (what CG produces from position 0: E < 0
+    from the first iterate on), converging geometrically; tolerances chosen so that the criterion is met
+    somewhere in the middle of the sequence, if at all."""
+    kind = KINDS[i % 5]
+    c = {"kind": kind, "level": int(rng.choice([1, 1, 2])), "limit": [None, None, 30][int(rng.integers(0, 3))]}
+    tol = float(10.0 ** int(rng.integers(-6, -1)))
+    if kind == "gradnorm":
+        c["tol_abs"], c["tol_rel"] = (tol, None) if rng.random() < 0.5 else (None, tol)
+    elif kind == "stoch":
+        c["tol"], c["memlen"] = tol, int(rng.choice([2, 3, 5]))
+    else:
+        c["tol"] = tol
+    L = int(rng.integers(4, 26))
+    Einf = -float(10.0 ** rng.uniform(-2, 3))
+    rho = float(rng.choice([0.5, 0.2, 0.8]))
+    g0 = float(10.0 ** rng.uniform(-1, 2))
+    first = 0.0 if rng.random() < 0.5 else Einf * 0.1
+    seq = []
+    for k in range(L):
+        v = first if k == 0 else Einf * (1.0 - 0.9 * rho ** k)
+        g = g0 * rho ** k
+        seq.append([v, g, g * float(rng.uniform(0.4, 1.0))])
+    return {"ctrl": c, "seq": seq}
+
+
 def gen_ie_specs(rng, quick):
     out = []
     s = 0
@@ -698,6 +724,8 @@ class C14(C.Check):
         nctrl, ncg, nbig = (100, 24, 30) if ctx.quick else (1000, 250, 300)
         cor = ctx.corpus()
         ctrl = [c["spec"] for c in cor if c.get("kind") == "ctrl"] + [gen_ctrl_spec(rng, i) for i in range(nctrl)]
+        nrng = ctx.rng(1414)          # own stream: the other case lists stay as they were
+        ctrl += [gen_ctrl_neg_spec(nrng, i) for i in range(30 if ctx.quick else 300)]
         cg = [c["spec"] for c in cor if c.get("kind") == "cg"] + [gen_cg_spec(rng, i, nmax=8 if ctx.quick else 10) for i in range(ncg)]
         big = [gen_cg_spec(rng, i, nmax=40, cplx=(i % 2 == 0)) for i in range(nbig)]
         ie = [c["spec"] for c in cor if c.get("kind") == "ie"] + gen_ie_specs(rng, ctx.quick)
@@ -747,7 +775,7 @@ class C14(C.Check):
             dist[key] = dist.get(key, 0) + 1
         res.coverage.update({
             "evaluations": len(checks), "distinct_nontrivial": len(nontriv),
-            "rule": "controllers: 5 kinds x generated parameter settings (levels incl. <= 0, limits incl. 0 and negative, missing tolerances) x generated observation sequences with plateaus, exact zeros and NaN; non-trivial = at least two calls.  CG: real HPD systems n<=10 with small-integer entries (A = G^T G + k I), with/without b, zero / integer start, no / Jacobi / random positive diagonal preconditioner, nreset in {1,2,3,5,20}, every controller kind; non-trivial = at least one position update.  InversionEnabler: all 16 capabilities x 4 modes (+ invalid modes), with and without approximation; non-trivial = the wrapped operator was applied.  distinct by spec hash",
+            "rule": "controllers: 5 kinds x strictly negative geometrically converging energies (as CG produces from position 0); 5 kinds x generated parameter settings (levels incl. <= 0, limits incl. 0 and negative, missing tolerances) x generated observation sequences with plateaus, exact zeros and NaN; non-trivial = at least two calls.  CG: real HPD systems n<=10 with small-integer entries (A = G^T G + k I), with/without b, zero / integer start, no / Jacobi / random positive diagonal preconditioner, nreset in {1,2,3,5,20}, every controller kind; non-trivial = at least one position update.  InversionEnabler: all 16 capabilities x 4 modes (+ invalid modes), with and without approximation; non-trivial = the wrapped operator was applied.  distinct by spec hash",
             "samples": [{"spec": {k: v for k, v in o["spec"].items() if k != "A"}, "status": o.get("status"), "n": o.get("n")} for o in self.cg_obs[2:5]],
             "input_distribution": {"controller_sequences": len(self.ctrl_obs), "cg_runs_replayed": len(self.cg_obs),
                                    "cg_outcomes": dist, "cg_with_reset_branch": sum(1 for o in self.cg_obs if not o.get("exception") and o["n"] >= o["spec"]["nreset"]),
